@@ -80,9 +80,10 @@ def run(ctx):
             NX = nx[0]
             ch, root = call_chain(f, NX.args[0])
             names = [c.name.split("::")[-1] for c in ch]
-            ctx.check(names == ["into_iter", "filter", "filter_map", "into_iter", "new"], P, "iter-chain",
-                      "iterator = WalkDir::new(..).into_iter().filter_map(..).filter(..) (%s)" % names, NX.where())
-            # the filter closure: file_type().is_file(), nothing that follows links
+            ctx.check(names[-1:] == ["new"] and all(n in ("into_iter", "filter", "filter_map", "iter", "by_ref") for n in names[:-1]), P, "iter-chain",
+                      "the loop drives WalkDir::new(..) directly or through filter / filter_map adapters only (%s)" % names, NX.where())
+            # adapters: a filter closure must be the regular-file test; an adapter that turns the walk's Err items
+            # into nothing (`filter_map(|e| e.ok())`, `flatten()`) hides whole directories from both modes
             clos = []
             for c in ch:
                 if c.matches(r"::filter$|::filter_map$") and len(c.args) > 1:
@@ -91,16 +92,55 @@ def run(ctx):
                     if d and d[1] == "assign" and d[2]["rv"]["k"] == "agg" and d[2]["rv"].get("agg") == "closure":
                         clos.append((c, facts.body(d[2]["rv"]["def"])))
             ft_ok = False
+            dropped = []
             for c, cb in clos:
                 if cb is None:
                     continue
                 names_c = [x.name for x in cb.calls]
                 if c.matches(r"::filter$"):
                     ft_ok = [n.split("::")[-2:] for n in names_c] == [["DirEntry", "file_type"], ["FileType", "is_file"]] and cb.calls[1].dst["l"] == 0
-                    chain2, r2 = call_chain(cb, cb.calls[0].args[0]) if cb.calls else ([], None)
-                else:
-                    okmap = len(cb.calls) == 1 and cb.calls[0].matches(r"Result::<.*>::ok$")
-                    ctx.check(okmap, P, "filter-map", "unreadable directory entries are dropped with .ok() and nothing else", cb.where())
+                elif any(x.matches(r"Result::<.*>::ok$") for x in cb.calls):
+                    dropped.append(cb.where())
+            item_ty = f.local_ty(NX.dst["l"]) or ""
+            if "Result<walkdir::DirEntry" in item_ty:
+                # the loop sees the walk's errors: the Err arm must end the search with `false`
+                handled = False
+                for sb in sorted(loop_containing(f, NX.bb)):
+                    es = enum_switch(f, sb)
+                    if es is None or es[0]["p"] or not (f.local_ty(es[0]["l"]) or "").startswith(("std::result::Result<walkdir::DirEntry", "core::result::Result<walkdir::DirEntry")):
+                        continue
+                    err_arm = es[1].get(1, es[2])
+                    region = cfg.reach(f, [err_arm])
+                    falses = [st2 for (bb2, st2) in return_values(f) if bb2 in cfg.reach(f, [err_arm], avoid=[NX.bb])]
+                    ends = NX.bb not in region
+                    all_false = bool(falses) and all(st2["rv"]["k"] == "use" and (op_const(st2["rv"]["op"]) or {}).get("int") == 0 for st2 in falses)
+                    handled = ends and all_false
+                    ctx.check(handled, P, "walk-errors", "a directory entry that cannot be read ends the search with `false` (found: %s)" %
+                              ("returns false" if handled else "the loop goes on" if not ends else "does not return false"), f.where(sb))
+                if not handled and not any(enum_switch(f, sb) for sb in loop_containing(f, NX.bb)):
+                    ctx.bad(P, "walk-errors", "the walk's Result items are never examined", NX.where())
+            else:
+                ctx.check(not dropped and "walkdir::DirEntry" not in item_ty.replace("Result<walkdir::DirEntry", ""), P, "walk-errors",
+                          "errors of the directory walk (EACCES / EMFILE / ENAMETOOLONG on a sub-directory) are not discarded: the files below would be invisible to both modes and the run would still exit 0 (%s)" %
+                          (("dropped by `.ok()` in " + ", ".join(dropped)) if dropped else "items reaching the loop are bare entries: %s" % item_ty), NX.where())
+            if not ft_ok:
+                # inline form: the push is reachable only through the true side of `entry.file_type().is_file()`
+                pushes = [c for c in f.calls if re.search(r"Vec::<.*CodeFile>::push$", c.func.get("full", ""))]
+                for c in f.calls_to(r"FileType::is_file$"):
+                    chf, _r = call_chain(f, c.args[0])
+                    if not (chf and chf[0].matches(r"walkdir::DirEntry::file_type$")):
+                        continue
+                    for sb in sorted(f.reachable_blocks()):
+                        t = f.term(sb)
+                        if t["k"] != "switch":
+                            continue
+                        k, pl, neg = trace_bool(f, t["discr"])
+                        if k == "call" and pl.bb == c.bb:
+                            tt, ff = bool_switch_targets(f, sb)
+                            if neg:
+                                tt, ff = ff, tt
+                            if pushes and all(pc.bb not in cfg.reach(f, [ff], avoid=[NX.bb]) for pc in pushes):
+                                ft_ok = True
             ctx.check(ft_ok, P, "regular-file-test", "the in-scope test is exactly `entry.file_type().is_file()` (does not follow symlinks)", f.where())
             bad = []
             for b in [f] + facts.nested(f):
